@@ -44,15 +44,63 @@ func verifDeepCopy(o object.Object) object.Object {
 	return o
 }
 
+// verifSame is the harness's own strict structural identity: same type at every level (an Integer is not the
+// Float of the same magnitude), floats with the same bits (so 0.0 is not -0.0) or both NaN, containers
+// element by element. Functions compare by printed text here; VerifConstant also compares their behaviour.
 func verifSame(a, b object.Object) bool {
 	a, b = object.Value(a), object.Value(b)
 	if a.Type() != b.Type() {
 		return false
 	}
-	if object.Equals(a, b) {
-		return true
+	switch av := a.(type) {
+	case object.Integer:
+		return av.Value == b.(object.Integer).Value
+	case object.Float:
+		bv := b.(object.Float).Value
+		if av.Value != av.Value || bv != bv {
+			return av.Value != av.Value && bv != bv
+		}
+		return av.Value == bv && (1/av.Value > 0) == (1/bv > 0)
+	case object.String:
+		return av.Value == b.(object.String).Value
 	}
-	return verifBothNaN(a, b)
+	switch a.Type() {
+	case object.ARRAY:
+		ea, eb := object.Elements(a), object.Elements(b)
+		if len(ea) != len(eb) {
+			return false
+		}
+		for i := range ea {
+			if !verifSame(ea[i], eb[i]) {
+				return false
+			}
+		}
+		return true
+	case object.MAP:
+		ma, mb := a.(object.Map), b.(object.Map)
+		if ma.Len() != mb.Len() {
+			return false
+		}
+		for ma.Len() > 0 {
+			ka, kb := ma.First().(object.Map), mb.First().(object.Map)
+			k1, _ := ka.Get(object.KeyKey)
+			k2, _ := kb.Get(object.KeyKey)
+			v1, _ := ka.Get(object.ValueKey)
+			v2, _ := kb.Get(object.ValueKey)
+			if !verifSame(k1, k2) || !verifSame(v1, v2) {
+				return false
+			}
+			ra, rb := ma.Rest(), mb.Rest()
+			if ra == object.NULL || rb == object.NULL {
+				return ra == rb
+			}
+			ma, mb = ra.(object.Map), rb.(object.Map)
+		}
+		return true
+	case object.FUNC:
+		return a.Inspect() == b.Inspect()
+	}
+	return object.Equals(a, b)
 }
 
 // verifGet evaluates an identifier (nil when unbound).
@@ -117,6 +165,11 @@ func VerifConstant(args []string) {
 		return
 	}
 	snap := verifDeepCopy(verifGet(s, "K"))
+	isFunc := snap != nil && snap.Type() == object.FUNC
+	var callBefore verifOutcome
+	if isFunc {
+		callBefore = verifRunOne(s, "K(1)")
+	}
 	o := verifRunOne(s, mut)
 	if o.panics != "" {
 		vReach("mutation attempt panicked")
@@ -130,6 +183,9 @@ func VerifConstant(args []string) {
 		return
 	}
 	vAssert(verifSame(cur, snap), "constant/value-unchanged")
+	if isFunc && cur.Type() == object.FUNC {
+		verifSameOutcome(callBefore, verifRunOne(s, "K(1)"), "constant/function-behaves-as-before")
+	}
 }
 
 // VerifAlias: operations through one binding never change what another binding evaluates to.
